@@ -2,13 +2,26 @@ package c14
 
 import (
 	"bufio"
+	"crypto/sha256"
 	"encoding/hex"
 	"encoding/json"
 	"os"
+	"strconv"
 	"sync"
 )
 
 func hexs(b []byte) string { return hex.EncodeToString(b) }
+
+// encB writes chunk bytes into the log: hex if short, else hex of the first 16 bytes, "~", SHA-256, "~", length.
+func encB(b []byte) string {
+	if len(b) <= 128 {
+		return hex.EncodeToString(b)
+	}
+	d := sha256.Sum256(b)
+	return hex.EncodeToString(b[:16]) + "~" + hex.EncodeToString(d[:]) + "~" + strconv.Itoa(len(b))
+}
+
+// unhex decodes as far as the string is hex (for encB values: the first bytes of the chunk).
 func unhex(s string) []byte {
 	b, _ := hex.DecodeString(s)
 	return b
@@ -29,6 +42,8 @@ type Ev struct {
 	//  sp-call sp-ret                        state provider
 	//  offer-call offer-ret apply-call apply-ret info-call info-ret
 	//  peer-stop peer-reconnect cut bootstrap note
+	//  batch-start batch-end                 a set of chunk deliveries of one index released at the same moment (X = arrival ids)
+	//  added                                 the node logged "Added chunk to queue" (AddChunk returned true) for index I
 	P       int      `json:"p"`           // liar index, -1 if none
 	C       int      `json:"c"`           // call number of its kind (app / provider), -1 if none
 	A       int      `json:"a,omitempty"` // arrival / advert id (1-based)
